@@ -52,6 +52,9 @@ def cases(tier, seed):
         cs.append({'kind': 'framing', 'lo': lo, 'hi': min(4097, lo + fr)})
     for i in range(16 if tier == 'quick' else 100):
         cs.append({'kind': 'messages', 'seed': rng.randrange(1 << 30), 'n': 130 if tier == 'quick' else 500})
+    # beyond the 0..4096 window: a payload larger than 64 KiB (the tool's probe KEXINIT echoes the peer's lists, whatever their size) and small packets on the same socket right after it
+    for i, lens in enumerate([[100, 70000, 37, 41, 65537, 8, 65536, 5, 131072, 1, 2], [66000, 12, 66000, 12]] if tier == 'quick' else [[100, 70000, 37, 41, 65537, 8, 65536, 5, 131072, 1, 2], [66000, 12, 66000, 12], [65535, 9, 65536, 9, 65537, 9, 65538, 9], [200000, 37, 3, 262144, 20]]):
+        cs.append({'kind': 'framing', 'lo': 7000 + i, 'hi': 7000 + i, 'lens': lens})
     cs.append({'kind': 'ssh1crc', 'seed': rng.randrange(1 << 30), 'n': 400})
     for i in range(12 if tier == 'quick' else 120):
         cs.append({'kind': 'e2e', 'seed': rng.randrange(1 << 30)})
@@ -240,7 +243,7 @@ def run_framing(c):
         return None, {'why': 'loopback connect failed: %s' % err}
     framed = readback = 0
     rng = random.Random(c['lo'])
-    for ln in range(c['lo'], c['hi']):
+    for ln in (c['lens'] if c.get('lens') else range(c['lo'], c['hi'])):
         payload = bytes([rng.choice([20, 30, 31, 34, 2, 4, 255])]) + rng.randbytes(ln - 1) if ln >= 1 else b''
         s.write(payload)
         s.send_packet()
@@ -256,7 +259,7 @@ def run_framing(c):
             viol.append(_v('C10/readback-differs', 'own packet reader returns a different payload', length=ln, got_type=t))
     s.close()
     echo.t.join(5)
-    want = c['hi'] - c['lo']
+    want = len(c['lens']) if c.get('lens') else c['hi'] - c['lo']
     if len(echo.raw) != want and not viol:
         viol.append(_v('C10/packet-count', 'peer framed %d packets, tool sent %d' % (len(echo.raw), want), lo=c['lo']))
     for raw, payload, why in echo.raw:
@@ -267,7 +270,7 @@ def run_framing(c):
         plen, pad = struct.unpack('>IB', raw[:5])
         if len(raw) % 8 or pad < 4 or plen != len(raw) - 4 or plen - pad - 1 != len(payload) or pad > 255:
             viol.append(_v('C10/bad-frame:fields', 'length fields inconsistent', head=raw[:16].hex()))
-    return viol, {'packets_framed': framed, 'packets_readback': readback}
+    return viol, {'packets_framed': framed, 'packets_readback': readback, 'small_packets_after_a_large_one': sum(1 for a, b in zip(c.get('lens', []), c.get('lens', [])[1:]) if a > 65536 and b < 1000)}
 
 
 def rand_names(rng, n, unicode_share=0.0):
